@@ -68,7 +68,7 @@ struct Obj {
 };
 
 // ------------------------------------------------------------------ hook 1: schedule points
-enum { NPOINTS = 20 };
+enum { NPOINTS = 21 };
 static long g_pointHits[NPOINTS];
 static int g_pointPermille[NPOINTS];
 static long g_seq = 0;
@@ -213,6 +213,7 @@ static void runCases() {
 #ifndef VERIF_NO_PTSHIMS
     verif_pt_delay_permille = r.chance(1, 2) ? (int)r.range(5, 200) : 0; verif_pt_spurious_permille = r.chance(1, 2) ? (int)r.range(5, 100) : 0;
 #endif
+    if (r.chance(1, 3)) __atomic_store_n(&g_pointPermille[20], (int)r.range(300, 1000), RLX);   // widen the window between pthread_create and the handle store
     if (r.chance(1, 6)) __atomic_fetch_add(&g_skewMs, 3000, RLX);   // lets the retire-a-worker branch trigger on the next start
     hist.addf("# pool(min=%lu,max=%lu,queue=%lu) clients=%d futures/client=%d rounds=%d gated=%d/1000 abort=%d/1000 heavy-delays=%d skewMs=%ld\n",
               (unsigned long)kCfg[g_cfg][0], (unsigned long)kCfg[g_cfg][1], (unsigned long)kCfg[g_cfg][2], nclients, nfut, rounds, gated, abortp, heavy, (long)g_skewMs);
@@ -236,7 +237,7 @@ static void runCases() {
     if (nseen++ < 2) sample("%s jobs=%ld interleaving-signature=%016llx", hist.c(), st, (unsigned long long)sig);
     endCase(sig, nclients >= 2 && st >= 4);
   }
-  static const char* pn[NPOINTS] = { "p0", "push_after_cas", "push_before_publish", "pop_after_cas", "pop_before_release", "fastsignal_set", "fastsignal_reset", "fastsignal_wait", "worker_pop_failed", "worker_after_reset", "worker_before_wait", "worker_dequeued", "run_queue_full", "run_after_reset", "run_before_wait", "run_before_enqueued_set", "run_after_enqueued_set", "run_spawn_worker", "run_retire_worker", "future_set" };
+  static const char* pn[NPOINTS] = { "p0", "push_after_cas", "push_before_publish", "pop_after_cas", "pop_before_release", "fastsignal_set", "fastsignal_reset", "fastsignal_wait", "worker_pop_failed", "worker_after_reset", "worker_before_wait", "worker_dequeued", "run_queue_full", "run_after_reset", "run_before_wait", "run_before_enqueued_set", "run_after_enqueued_set", "run_spawn_worker", "run_retire_worker", "future_set", "thread_start_after_create" };
   for (int i = 1; i < NPOINTS; ++i) { char nm[64]; snprintf(nm, sizeof nm, "point_%s", pn[i]); cnt(nm, __atomic_load_n(&g_pointHits[i], RLX)); if (__atomic_load_n(&g_pointHits[i], RLX)) setItem("points_hit", pn[i]); }
   cnt("distinct_interleaving_signatures", nsigs); cnt("gated_job_waits", g_gatedWaits);
 #ifndef VERIF_NO_PTSHIMS
